@@ -33,6 +33,13 @@ def _type_name(v):
 
 def binop(E, op, a, b, st, sink):
     from .interp import FuncV
+    if isinstance(a, SUnionIB) or isinstance(b, SUnionIB):
+        # an operator needs the Python type of an int|bytes union: fork into the two cases
+        for s1, a1 in (E.resolve_union(st, a) if isinstance(a, SUnionIB) else [(st, a)]):
+            for s2, b1 in (E.resolve_union(s1, b) if isinstance(b, SUnionIB) else [(s1, b)]):
+                for r in binop(E, op, a1, b1, s2, sink):
+                    yield r
+        return
     # --- fully concrete: CPython decides, including the exception type
     if _conc(a) and _conc(b) and not isinstance(a, PyClassV) and not isinstance(b, PyClassV):
         if isinstance(op, ast.Pow) and isinstance(b, int) and (b > 100000 or (isinstance(a, int) and abs(a) > 2 and b > 20000)):
